@@ -104,6 +104,10 @@ class Composition(object):
         """Enable the '[] =' notation."""
         self.tracks[index] = value
 
+    def __eq__(self, other):
+        """Enable the '==' operator for Compositions."""
+        return self.tracks == other.tracks
+
     def __len__(self):
         """Enable the len() function."""
         return len(self.tracks)
